@@ -5,6 +5,7 @@ use explore::mix;
 pub fn shim_path() -> String { std::env::var("VERIF_SHIM").unwrap_or_else(|_| "/verif/target/entropy_shim.so".into()) }
 #[derive(Clone, Debug)]
 pub struct Req { pub len: usize, pub entry: String, pub ok: bool, pub bytes: Vec<u8> }
+#[allow(dead_code)]
 pub enum Mode { Cycle { pattern: Vec<u8>, fail_at: Option<u64>, once: bool }, List(Vec<Option<Vec<u8>>>), Stream { seed: u64, fail_at: Option<u64> }, StreamFailOnce { seed: u64, fail_at: u64 } }
 /// bytes the shim returns for request k of a stream
 pub fn stream_bytes(seed: u64, k: u64, len: usize) -> Vec<u8> { let base = mix(seed, k); (0..len).map(|i| (mix(base, i as u64 / 8) >> (8 * (i % 8))) as u8).collect() }
